@@ -332,3 +332,104 @@ func zzC17ClientIter() {
 	}
 	vReach("end")
 }
+
+// H5: all four feature kinds through the real server list functions AND the real client iterators
+// (ClientSession.Tools/Resources/ResourceTemplates/Prompts). The transport between them is cut away: the session's
+// List* methods are replaced by stubs that hand the request to the server's list function (overrides in the spec),
+// so iterator + paginate + list function + paginateList + featureSet run as written. The iterator, started with nil
+// params, must yield every registered id exactly once, in ascending order, whatever the page size.
+var zzC17Srv *Server
+var zzC17Pages int
+
+func zzCSListTools(cs *ClientSession, ctx context.Context, p *ListToolsParams) (*ListToolsResult, error) {
+	zzC17Pages++
+	return zzC17Srv.listTools(ctx, &ListToolsRequest{Params: p})
+}
+func zzCSListResources(cs *ClientSession, ctx context.Context, p *ListResourcesParams) (*ListResourcesResult, error) {
+	zzC17Pages++
+	return zzC17Srv.listResources(ctx, &ListResourcesRequest{Params: p})
+}
+func zzCSListResourceTemplates(cs *ClientSession, ctx context.Context, p *ListResourceTemplatesParams) (*ListResourceTemplatesResult, error) {
+	zzC17Pages++
+	return zzC17Srv.listResourceTemplates(ctx, &ListResourceTemplatesRequest{Params: p})
+}
+func zzCSListPrompts(cs *ClientSession, ctx context.Context, p *ListPromptsParams) (*ListPromptsResult, error) {
+	zzC17Pages++
+	return zzC17Srv.listPrompts(ctx, &ListPromptsRequest{Params: p})
+}
+
+func zzC17Kinds() {
+	s := NewServer(&Implementation{Name: "s", Version: "v"}, nil)
+	s.opts.PageSize = vIntRange("pageSize", 1, vParam("maxPage"))
+	zzC17Srv, zzC17Pages = s, 0
+	n := vIntRange("n", 0, vParam("keys"))
+	var keys []string
+	for i := 0; i < n; i++ {
+		k := zzKey("key")
+		for _, o := range keys {
+			vAssume(o != k)
+		}
+		keys = append(keys, k)
+	}
+	kind := vChoice("kind", 4)
+	for _, k := range keys {
+		switch kind {
+		case 0:
+			s.tools.add(&serverTool{tool: &Tool{Name: k}})
+		case 1:
+			s.resources.add(&serverResource{resource: &Resource{URI: k}})
+		case 2:
+			s.resourceTemplates.add(&serverResourceTemplate{resourceTemplate: &ResourceTemplate{URITemplate: k}})
+		case 3:
+			s.prompts.add(&serverPrompt{prompt: &Prompt{Name: k}})
+		}
+	}
+	cs := &ClientSession{client: &Client{}}
+	ctx := context.Background()
+	var got []string
+	switch kind {
+	case 0:
+		for t, err := range cs.Tools(ctx, nil) {
+			vAssert(err == nil, "C17.kinds.no-error")
+			got = append(got, t.Name)
+		}
+	case 1:
+		for r, err := range cs.Resources(ctx, nil) {
+			vAssert(err == nil, "C17.kinds.no-error")
+			got = append(got, r.URI)
+		}
+	case 2:
+		for r, err := range cs.ResourceTemplates(ctx, nil) {
+			vAssert(err == nil, "C17.kinds.no-error")
+			got = append(got, r.URITemplate)
+		}
+	case 3:
+		for p, err := range cs.Prompts(ctx, nil) {
+			vAssert(err == nil, "C17.kinds.no-error")
+			got = append(got, p.Name)
+		}
+	}
+	vAssert(len(got) == n, "C17.kinds.every-item-exactly-once")
+	for i := range got {
+		if i > 0 {
+			vAssert(got[i-1] < got[i], "C17.kinds.one-stable-ascending-order")
+		}
+		found := false
+		for _, k := range keys {
+			if k == got[i] {
+				found = true
+			}
+		}
+		vAssert(found, "C17.kinds.only-registered-items")
+	}
+	// no page is fetched after the one that carried the empty cursor: ceil(n/pageSize) pages, one for an empty set
+	want := (n + s.opts.PageSize - 1) / s.opts.PageSize
+	if want == 0 {
+		want = 1
+	}
+	vAssert(zzC17Pages == want, "C17.kinds.traversal-ends-with-the-empty-cursor")
+	if n >= 2 {
+		vReach("several")
+	}
+	vReach("end")
+}
